@@ -1,6 +1,6 @@
 ---------------------------- MODULE LensCommon ----------------------------
 (* shared leaf builders for the TermMachine lenses *)
-EXTENDS TermMachine
+EXTENDS Adjoint
 
 RP == <<Q(-1, 1), Zero, Q(1, 2), Q(2, 1)>>
 
